@@ -1130,6 +1130,19 @@ def correspond(ctx):
         rows = arr.tolist()
         B.add('plane_normal:many-rows', f'planearr {hx} {atol_s} 3 {cm.frs(V)} ' + ' '.join(cm.fr(float(v)) for row in rows for v in row),
               r, e, _cmp_plane_arr(Vfr, rows), {'cell': label, 'vects': V.tolist(), 'rows': n, 'first': rows[:3]})
+    for it in range(ctx.n(2, 6)):              # thousands of four-index sets against p43arr / v43arr; one offending row
+        n = rng.choice([2049, 4097, 5001, 8193])
+        arr = _big_rows(np, rng.getrandbits(32), n, 4, 'int64', rng.choice([9, 300]))
+        offs = {}
+        if it % 2:
+            j = rng.choice([n - 1, n - 2, 2047, rng.randrange(n)])
+            arr[j, 2] += rng.choice([1, -1, 3])
+            offs = {'row': int(j), 'set': arr[j].tolist()}
+        flat = ' '.join(str(x) for x in arr.ravel().tolist())
+        for name, f, op in (('plane4to3', miller.plane4to3, 'p43arr'), ('vector4to3', miller.vector4to3, 'v43arr')):
+            r, e = _call(f, arr)
+            B.add(name + ':many-rows', f'{op} {atol_s} {flat}', r, e, _cmp_exact, {'rows': n, 'offending': offs, 'first': arr[:3].tolist()},
+                  nontrivial=not offs)
     B.run()
 
     # ---- D. centering conversions ----------------------------------------------------------
